@@ -73,6 +73,13 @@ GenFam == [k \in GenKeys |->
 \* (no definition of the union of the three parts: TLC evaluates constant definitions eagerly and
 \* enumerates A \cup B with a linear membership test per element)
 
+\* D: history - the same key object first used, successfully, under the algorithm it is made for, then pinned to
+\* another algorithm of its family that asks for another curve size (route "pre"): the second use is judged alone
+PreKeys == { AsymKey("p256a", 0, NONE, NONE), AsymKey("p384a", 0, NONE, NONE) } \cup (IF Quick THEN {} ELSE { AsymKey("p521a", 0, NONE, NONE), AsymKey("k256a", 0, NONE, NONE) })
+PreFam == [k \in PreKeys |->
+             { [part |-> "D", side |-> s, calg |-> a, haskey |-> 1, key |-> IF s = "builder" THEN [k EXCEPT !.priv = 1] ELSE k,
+                route |-> "pre", halg |-> a, sig |-> "valid"] : s \in {"checker", "builder"}, a \in ESAlgs \ {Native(k)} }]
+
 \* ------------------------------------------------------------- scripts
 KeyOf(c) == IF c.side = "builder" /\ c.part = "A" THEN [c.key EXCEPT !.priv = 1] ELSE c.key
 Kds(c) == IF c.haskey = 1 THEN <<KeyOf(c)>> ELSE <<>>
@@ -93,9 +100,12 @@ Prog(c) == CASE c.route = "cb-both" -> <<CbKey(Idx(c)), CbAlg(c.calg)>>
 ConfigOps(c) ==
   IF c.side = "checker"
   THEN <<CNewOp>> \o (CASE c.route = "setkey" -> <<CSetKeyOp(c.calg, Idx(c))>>
+                        [] c.route = "pre" -> <<CSetKeyOp(Native(c.key), 0), VerifyOp(Tok(Native(c.key), <<>>, <<>>, Sig("valid", Native(c.key), c.key))),
+                                                CSetKeyOp(c.calg, 0)>>
                         [] c.route = "cb-alg" -> <<CSetKeyOp("none", Idx(c)), CSetCbOp(Prog(c))>>
                         [] OTHER -> <<CSetCbOp(Prog(c))>>)
   ELSE <<BNewOp>> \o (CASE c.route = "setkey" -> <<BSetKeyOp(c.calg, Idx(c))>>
+                        [] c.route = "pre" -> <<BSetKeyOp(Native(c.key), 0), GenerateOp(1), BSetKeyOp(c.calg, 0)>>
                         [] c.route = "cb-alg" -> <<BSetKeyOp("none", Idx(c)), BSetCbOp(Prog(c))>>
                         [] OTHER -> <<BSetCbOp(Prog(c))>>)
 Script(c) == (IF c.haskey = 1 THEN <<LoadOp(Kds(c))>> ELSE <<>>) \o ConfigOps(c)
@@ -104,10 +114,10 @@ Script(c) == (IF c.haskey = 1 THEN <<LoadOp(Kds(c))>> ELSE <<>>) \o ConfigOps(c)
 \* ------------------------------------------------- reference evaluation
 Rs(c) == RingsOf(Kds(c))
 It(c) == ItemOf(Kds(c), Idx(c))
-Ck(c) == CASE c.route = "setkey" -> CheckerWith(c.calg, It(c))
+Ck(c) == CASE c.route \in {"setkey", "pre"} -> CheckerWith(c.calg, It(c))
            [] c.route = "cb-alg" -> WithCb(CheckerWith("none", It(c)), Prog(c))
            [] OTHER -> WithCb(NewChecker, Prog(c))
-Bd(c) == CASE c.route = "setkey" -> BuilderWith(c.calg, It(c))
+Bd(c) == CASE c.route \in {"setkey", "pre"} -> BuilderWith(c.calg, It(c))
            [] c.route = "cb-alg" -> WithCb(BuilderWith("none", It(c)), Prog(c))
            [] OTHER -> WithCb(NewBuilder, Prog(c))
 VRef(c) ==
@@ -123,6 +133,7 @@ MCInit == /\ Init /\ done = FALSE
              \/ cell \in TableNoKey
              \/ \E ak \in DOMAIN TokFam : cell \in TokFam[ak]
              \/ \E k \in DOMAIN GenFam : cell \in GenFam[k]
+             \/ \E k \in DOMAIN PreFam : cell \in PreFam[k]
 MCNext == done = FALSE /\ done' = TRUE /\ UNCHANGED <<cell, vars>>
 MCSpec == MCInit /\ [][MCNext]_<<cell, done, vars>>
 
